@@ -38,15 +38,17 @@ impl Repeat for ArrRepeat {
     fn pop(&mut self, b: &Board) {
         let k = Some(key_of(b));
         unsafe {
-            let mut i = REP_N;
-            while i > 0 {
-                i -= 1;
-                if REP[i] == k {
+            // constant trip count (CAP); the data-dependent part is a condition inside
+            let mut j = 0;
+            while j < CAP {
+                let i = CAP - 1 - j;
+                if i < REP_N && REP[i] == k {
                     REP[i] = REP[REP_N - 1];
                     REP[REP_N - 1] = None;
                     REP_N -= 1;
                     return;
                 }
+                j += 1;
             }
             REP_BAD_POP = true;
         }
@@ -56,8 +58,8 @@ impl Repeat for ArrRepeat {
         let mut c = 0;
         let mut i = 0;
         unsafe {
-            while i < REP_N {
-                if REP[i] == k {
+            while i < CAP {
+                if i < REP_N && REP[i] == k {
                     c += 1;
                 }
                 i += 1;
@@ -77,8 +79,8 @@ fn rep_count_key(k: &Key) -> usize {
     let mut c = 0;
     let mut i = 0;
     unsafe {
-        while i < REP_N {
-            if REP[i] == Some(*k) {
+        while i < CAP {
+            if i < REP_N && REP[i] == Some(*k) {
                 c += 1;
             }
             i += 1;
@@ -200,44 +202,104 @@ pub fn prefix_moves(start: u8, pre: u8) -> &'static [(&'static str, &'static str
     }
 }
 
-/// Model of a chain: the plain-board path.
+/// Model of a chain: the plain-board path.  The part built by the concrete prefix keeps CONCRETE
+/// indices (`base`); the one symbolic operation lives in `extra` / `popped`, so no array is ever
+/// written at a symbolic index (that alone took the harness from 26 GB to a few GB).
 pub struct Model {
-    pub boards: [Option<Board>; CAP], // boards[i] = position before move i; boards[len] = current
-    pub moves: [Option<Move>; CAP],
-    pub len: usize,
+    boards: [Option<Board>; CAP], // boards[i] = position before move i (concrete part)
+    moves: [Option<Move>; CAP],
+    base: usize,                  // concrete number of moves after the prefix
+    extra: Option<(Move, Board)>, // the symbolic push, if accepted
+    popped: usize,                // symbolic pops that reached into the concrete part (0..=2)
     pub outcome: Option<Outcome>,
 }
 impl Model {
     pub fn new(b: Board) -> Model {
         let mut boards: [Option<Board>; CAP] = Default::default();
         boards[0] = Some(b);
-        Model { boards, moves: [None; CAP], len: 0, outcome: None }
+        Model { boards, moves: [None; CAP], base: 0, extra: None, popped: 0, outcome: None }
     }
-    pub fn cur(&self) -> &Board {
-        self.boards[self.len].as_ref().unwrap()
+    pub fn push_concrete(&mut self, mv: Move, nb: Board) {
+        self.moves[self.base] = Some(mv);
+        self.base += 1;
+        self.boards[self.base] = Some(nb);
     }
-    pub fn push(&mut self, mv: Move, nb: Board) {
-        self.moves[self.len] = Some(mv);
-        self.len += 1;
-        self.boards[self.len] = Some(nb);
-    }
-    pub fn pop(&mut self) -> Option<Move> {
-        if self.len == 0 {
+    pub fn pop_concrete(&mut self) -> Option<Move> {
+        if self.base == 0 {
             return None;
         }
-        self.boards[self.len] = None;
-        self.len -= 1;
+        self.boards[self.base] = None;
+        self.base -= 1;
         self.outcome = None;
-        self.moves[self.len].take()
+        self.moves[self.base].take()
     }
-    /// occurrences of the current position (squares, side, rights, e.p.) on the current line
+    fn back(&self) -> usize {
+        self.base - self.popped
+    }
+    pub fn len(&self) -> usize {
+        self.back() + self.extra.is_some() as usize
+    }
+    pub fn start(&self) -> &Board {
+        self.boards[0].as_ref().unwrap()
+    }
+    pub fn cur(&self) -> &Board {
+        if let Some((_, b)) = &self.extra {
+            return b;
+        }
+        match self.popped {
+            0 => self.boards[self.base].as_ref().unwrap(),
+            1 => self.boards[self.base - 1].as_ref().unwrap(),
+            _ => self.boards[self.base - 2].as_ref().unwrap(),
+        }
+    }
+    /// position before move i / current position for i == len (i is a concrete index)
+    pub fn board_at(&self, i: usize) -> Option<&Board> {
+        if i <= self.back() {
+            self.boards[i].as_ref()
+        } else if i == self.back() + 1 {
+            self.extra.as_ref().map(|x| &x.1)
+        } else {
+            None
+        }
+    }
+    pub fn move_at(&self, i: usize) -> Option<Move> {
+        if i < self.back() {
+            self.moves[i]
+        } else if i == self.back() {
+            self.extra.as_ref().map(|x| x.0)
+        } else {
+            None
+        }
+    }
+    /// the symbolic push (at most one per harness)
+    pub fn push(&mut self, mv: Move, nb: Board) {
+        self.extra = Some((mv, nb));
+    }
+    pub fn pop(&mut self) -> Option<Move> {
+        if let Some((mv, _)) = self.extra.take() {
+            self.outcome = None;
+            return Some(mv);
+        }
+        if self.back() == 0 || self.popped >= 2 {
+            return None;
+        }
+        self.popped += 1;
+        self.outcome = None;
+        match self.popped {
+            1 => self.moves[self.base - 1],
+            _ => self.moves[self.base - 2],
+        }
+    }
+    /// occurrences of the current position on the current line
     pub fn count_cur(&self) -> usize {
         let k = key_of(self.cur());
         let mut c = 0;
         let mut i = 0;
-        while i <= self.len {
-            if key_of(self.boards[i].as_ref().unwrap()) == k {
-                c += 1;
+        while i < CAP {
+            if let Some(b) = self.board_at(i) {
+                if key_of(b) == k {
+                    c += 1;
+                }
             }
             i += 1;
         }
@@ -251,6 +313,18 @@ pub fn build(start: u8, pre: u8) -> (Chain, Model) {
     let b0 = start_board(start);
     let mut ch: Chain = BaseMoveChain::new(b0.clone());
     let mut md = Model::new(b0);
+    {
+        // warm-up: push and pop one concrete legal move so that the chain's Vec owns its buffer before
+        // the symbolic operation (a first allocation inside a symbolic branch makes every later access go
+        // through a symbolic pointer); not observable through the API: pop restores the state
+        let w = prefix_moves(start, 1);
+        if !w.is_empty() {
+            let (f, t, p) = w[0];
+            let mv = mk_move(md.cur(), f, t, p);
+            ch.push(mv).unwrap();
+            let _ = ch.pop();
+        }
+    }
     if pre == 2 {
         // a refused push first (a king "move" onto an own man / illegal tuple)
         let bad = Move::NULL;
@@ -263,58 +337,64 @@ pub fn build(start: u8, pre: u8) -> (Chain, Model) {
         let mv = mk_move(md.cur(), f, t, p);
         let nb = md.cur().make_move(mv).unwrap();
         ch.push(mv).unwrap();
-        md.push(mv, nb);
+        md.push_concrete(mv, nb);
         i += 1;
     }
     if pre == 2 {
         // ... then pop it again
         let _ = ch.pop();
-        let _ = md.pop();
+        let _ = md.pop_concrete();
     }
     (ch, md)
 }
 
 /// the chain agrees with the model in every observable respect
 fn agree(ch: &Chain, md: &Model) -> bool {
-    if ch.len() != md.len || ch.is_empty() != (md.len == 0) || *ch.outcome() != md.outcome || !same_board(ch.last(), md.cur()) {
+    if ch.len() != md.len() || ch.is_empty() != (md.len() == 0) || *ch.outcome() != md.outcome || !same_board(ch.last(), md.cur()) {
         return false;
     }
-    if *ch.startpos() != *md.boards[0].as_ref().unwrap().raw() {
+    if *ch.startpos() != *md.start().raw() {
         return false;
     }
     let mut i = 0;
     let mut it = ch.iter();
-    while i < md.len {
-        if Some(ch.get(i)) != md.moves[i] || it.next() != md.moves[i] {
-            return false;
+    let mut ok = true;
+    while i < CAP {
+        if i < md.len() && (Some(ch.get(i)) != md.move_at(i) || it.next() != md.move_at(i)) {
+            ok = false;
         }
         i += 1;
     }
-    it.next().is_none()
+    ok && it.next().is_none()
 }
 
 /// repetition table = multiset of the positions on the current line
 fn rep_agrees(md: &Model) -> bool {
-    if unsafe { REP_N } != md.len + 1 || unsafe { REP_BAD_POP } {
+    if unsafe { REP_N } != md.len() + 1 || unsafe { REP_BAD_POP } {
         return false;
     }
     let mut i = 0;
-    while i <= md.len {
-        let k = key_of(md.boards[i].as_ref().unwrap());
-        let mut c = 0;
-        let mut j = 0;
-        while j <= md.len {
-            if key_of(md.boards[j].as_ref().unwrap()) == k {
-                c += 1;
+    let mut ok = true;
+    while i < CAP {
+        if let Some(bi) = md.board_at(i) {
+            let k = key_of(bi);
+            let mut c = 0;
+            let mut j = 0;
+            while j < CAP {
+                if let Some(bj) = md.board_at(j) {
+                    if key_of(bj) == k {
+                        c += 1;
+                    }
+                }
+                j += 1;
             }
-            j += 1;
-        }
-        if rep_count_key(&k) != c {
-            return false;
+            if rep_count_key(&k) != c {
+                ok = false;
+            }
         }
         i += 1;
     }
-    true
+    ok
 }
 
 fn any_outcome<S: Src>(s: &mut S) -> Outcome {
@@ -381,11 +461,11 @@ fn any_m_rt<S: Src>(s: &mut S, side: u8, kg: u8) -> M {
 }
 
 /// one symbolic operation on the stated chain state (START, PRE), optionally followed by a pop
-pub fn chain_step<S: Src, const START: u8, const PRE: u8, const OP: u8>(s: &mut S) {
+pub fn chain_step<S: Src, const START: u8, const PRE: u8, const OP: u8, const FLAGS: u8>(s: &mut S) {
     // OP: 1..=11 push a move of that group, 20 push a UCI value, 30 pop / outcome operations
+    // FLAGS: bit 0 = follow the operation by a pop, bit 1 = compare the calculated outcome afterwards
+    // (each board-level step costs about 100k SSA steps even on concrete data, so a harness does one thing)
     let (mut ch, mut md) = build(START, PRE);
-    vassert!("stated pre-state: chain and plain-board model agree", agree(&ch, &md));
-    vassert!("stated pre-state: repetition table = positions on the line", rep_agrees(&md));
     #[cfg(kani)]
     {
         let h = s.bool();
@@ -393,11 +473,11 @@ pub fn chain_step<S: Src, const START: u8, const PRE: u8, const OP: u8>(s: &mut 
     }
     #[cfg(not(kani))]
     let _ = s.bool();
-    let p = pos_of(md.cur().raw());
-    let base_len = md.len;
+    let side = if md.cur().side() == Color::White { 0u8 } else { 1u8 };
+    let base_len = md.len();
     match OP {
         1..=11 => {
-            let m = any_m_rt(s, p.side, OP);
+            let m = any_m_rt(s, side, OP);
             vassume!(wf_ref(m));
             let mv = mv_of(m);
             let want = md.cur().make_move(mv);
@@ -462,13 +542,13 @@ pub fn chain_step<S: Src, const START: u8, const PRE: u8, const OP: u8>(s: &mut 
     }
     vassert!("after the operation: position, move list, start and outcome equal the model", agree(&ch, &md));
     vassert!("after the operation: repetition table = positions on the line", rep_agrees(&md));
-    if OP != OP_OTHER {
+    if FLAGS & 2 != 0 {
         vassert!("after the operation: calculated outcome follows the history", ch.calc_outcome() == model_outcome(&md));
     }
-    vcover!("a refused push (push harnesses)", OP == OP_OTHER || md.len == base_len);
-    vcover!("an accepted push (push harnesses)", OP == OP_OTHER || md.len > base_len);
-    // ... optionally followed by a pop
-    if s.bool() {
+    vcover!("a refused push (push harnesses)", OP == OP_OTHER || md.len() == base_len);
+    vcover!("an accepted push (push harnesses)", OP == OP_OTHER || md.len() > base_len);
+    // ... followed by a pop
+    if FLAGS & 1 != 0 {
         let got = ch.pop();
         let want = md.pop();
         vassert!("pop undoes exactly the latest accepted push", got == want);
@@ -530,17 +610,33 @@ pub fn chain_eq<S: Src, const START: u8, const KG: u8>(s: &mut S) {
         c2.set_outcome(o);
         m2.outcome = Some(o);
     }
-    let want = m1.boards[0].as_ref().unwrap().raw() == m2.boards[0].as_ref().unwrap().raw() && m1.len == m2.len && m1.moves[0] == m2.moves[0] && m1.outcome == m2.outcome;
+    let want = m1.start().raw() == m2.start().raw() && m1.len() == m2.len() && m1.move_at(0) == m2.move_at(0) && m1.outcome == m2.outcome;
     vassert!("chains compare equal exactly when start, move list and outcome are equal", (c1 == c2) == want);
-    vcover!("equal chains with a move", want && m1.len == 1);
-    vcover!("different starts whose current positions coincide after the same move", !want && m1.len == 1 && m2.len == 1 && m1.moves[0] == m2.moves[0]
+    vcover!("equal chains with a move", want && m1.len() == 1);
+    vcover!("different starts whose current positions coincide after the same move", !want && m1.len() == 1 && m2.len() == 1 && m1.move_at(0) == m2.move_at(0)
         && m1.outcome == m2.outcome && m1.cur().raw() == m2.cur().raw());
-    vcover!("same start, different move", !want && m1.len == 1 && m2.len == 1 && m1.outcome == m2.outcome && m1.boards[0].as_ref().unwrap().raw() == m2.boards[0].as_ref().unwrap().raw());
+    vcover!("same start, different move", !want && m1.len() == 1 && m2.len() == 1 && m1.outcome == m2.outcome && m1.start().raw() == m2.start().raw());
     core::mem::forget(c1);
     core::mem::forget(c2);
 }
 
 /// C17: walker over a stated chain extended by one symbolic accepted move; up to NOPS symbolic steps
+/// pair (board, move) returned by the walker equals the model's pair at (symbolic) cursor `cur`
+fn pair_matches(md: &Model, cur: usize, b: &Board, mv: Move) -> bool {
+    let mut ok = false;
+    let mut j = 0;
+    while j < CAP {
+        if j == cur {
+            ok = match md.board_at(j) {
+                Some(x) => same_board(b, x) && Some(mv) == md.move_at(j),
+                None => false,
+            };
+        }
+        j += 1;
+    }
+    ok
+}
+
 pub fn walker_steps<S: Src, const START: u8, const PRE: u8, const KG: u8, const NOPS: usize>(s: &mut S) {
     let (mut ch, mut md) = build(START, PRE);
     if KG != 0 {
@@ -553,26 +649,27 @@ pub fn walker_steps<S: Src, const START: u8, const PRE: u8, const KG: u8, const 
         }
     }
     let before = ch.clone();
+    let n = md.len();
     {
         let mut w = ch.walk();
         let mut cur = 0usize;
-        vassert!("walker starts at the beginning and knows the length", w.pos() == 0 && w.len() == md.len && w.is_empty() == (md.len == 0));
+        vassert!("walker starts at the beginning and knows the length", w.pos() == 0 && w.len() == n && w.is_empty() == (n == 0));
         let mut k = 0;
         while k < NOPS {
             match s.below(4) {
                 0 => match w.next() {
                     Some((b, mv)) => {
-                        vassert!("next is Some only before the end", cur < md.len);
-                        vassert!("next returns move i with the position that preceded it (every field)", Some(mv) == md.moves[cur] && same_board(b, md.boards[cur].as_ref().unwrap()));
+                        vassert!("next is Some only before the end", cur < n);
+                        vassert!("next returns move i with the position that preceded it (every field)", pair_matches(&md, cur, b, mv));
                         cur += 1;
                     }
-                    None => vassert!("next is None exactly at the end", cur == md.len),
+                    None => vassert!("next is None exactly at the end", cur == n),
                 },
                 1 => match w.prev() {
                     Some((b, mv)) => {
                         vassert!("prev is Some only after the start", cur > 0);
                         cur -= 1;
-                        vassert!("prev returns move i with the position that preceded it (every field)", Some(mv) == md.moves[cur] && same_board(b, md.boards[cur].as_ref().unwrap()));
+                        vassert!("prev returns move i with the position that preceded it (every field)", pair_matches(&md, cur, b, mv));
                     }
                     None => vassert!("prev is None exactly at the start", cur == 0),
                 },
@@ -582,15 +679,16 @@ pub fn walker_steps<S: Src, const START: u8, const PRE: u8, const KG: u8, const 
                 }
                 _ => {
                     w.end();
-                    cur = md.len;
+                    cur = n;
                 }
             }
             vassert!("pos() tracks the cursor", w.pos() == cur);
             k += 1;
         }
-        vcover!("walked to the end and back", cur == 0 && md.len >= 1);
+        vcover!("walked to the end and back", cur == 0 && n >= 1);
+        vcover!("jumped to the end, then stepped back twice", cur + 2 == n && n >= 3);
     }
-    vassert!("walking leaves the chain untouched", ch == before && same_board(ch.last(), md.cur()) && ch.len() == md.len);
+    vassert!("walking leaves the chain untouched", ch == before && same_board(ch.last(), md.cur()) && ch.len() == n);
     core::mem::forget(before);
     core::mem::forget(ch);
 }
